@@ -99,6 +99,9 @@ def refusals(name):
     if name == 'mt':
         R.append(('add-existing-title', 0, ('addtsec', b'mt', b'a'), 'needs-a'))
         R.append(('remove-missing-title', 0, ('rmtsec', b'mt', b'zz'), None))
+        # the context is case-sensitive (flags 0) and no history creates a title 'A': with or without an instance 'a' the title
+        # 'A' is missing, and a removal by it is refused and leaves 'a' alone
+        R.append(('remove-case-variant-title', 0, ('rmtsec', b'mt', b'A'), None))
         R.append(('remove-missing-index', 0, ('rmnsec', b'mt', 9), None))
         R.append(('remove-missing-path', 0, ('rmsec', b'mt=zz'), None))
         R.append(('wrong-type-setter', 0, ('set', 'int', b'mt', 7, None), None))
